@@ -34,7 +34,18 @@ const (
 func readIgnoreFile(fs billy.Filesystem, path []string, ignoreFile string) (ps []Pattern, err error) {
 	ignoreFile, _ = pathutil.ReplaceTildeWithHome(ignoreFile)
 
-	f, err := fs.Open(fs.Join(append(path, ignoreFile)...))
+	name := fs.Join(append(path, ignoreFile)...)
+	if ignoreFile == gitignoreFile {
+		// An in-tree .gitignore is never read through a symlink: the link
+		// comes with the tree and may point anywhere, inside .git or outside
+		// the worktree. Like git (which opens these files with O_NOFOLLOW
+		// since 2.32) treat a symlinked .gitignore as if it were not there.
+		if fi, lerr := fs.Lstat(name); lerr == nil && fi.Mode()&os.ModeSymlink != 0 {
+			return nil, nil
+		}
+	}
+
+	f, err := fs.Open(name)
 	if err == nil {
 		defer func() { _ = f.Close() }()
 
